@@ -353,16 +353,18 @@ class Check:
         'violations': len(self.violations), 'notes': self.notes,
         'known_findings_reported': self.known_lines,
     }
-    os.makedirs(os.path.join(VERIF, 'evidence'), exist_ok=True)
-    with open(os.path.join(VERIF, 'evidence', self.pid + '.json'), 'w') as f:
-      json.dump(ev, f, indent=1, default=str)
+    replaying = getattr(self, 'replay_of', None)
+    if not replaying:          # a replay re-runs recorded inputs: it does not stand for the state of the tree in evidence/
+      os.makedirs(os.path.join(VERIF, 'evidence'), exist_ok=True)
+      with open(os.path.join(VERIF, 'evidence', self.pid + '.json'), 'w') as f:
+        json.dump(ev, f, indent=1, default=str)
     if not self.violations:
       print('OK property=%s tier=%s evaluations=%d nontrivial=%d obligations=%d wall=%.1fs' % (
           self.pid, self.tier, self.cov['evaluations'], len(self._nontrivial), self.cov['obligations'], wall))
       return 0
     os.makedirs(os.path.join(VERIF, 'replays'), exist_ok=True)
     concrete = [v for v in self.violations if v['kind'] == 'oracle']
-    path = os.path.join(VERIF, 'replays', '%s_%s_seed%d.json' % (self.pid, self.tier, self.seed))
+    path = os.path.join(VERIF, 'replays', '%s_%s_seed%d%s.json' % (self.pid, self.tier, self.seed, '.replayed' if replaying else ''))
     with open(path, 'w') as f:
       json.dump({'property': self.pid, 'seed': self.seed, 'tier': self.tier,
                  'concrete_failing_inputs': concrete[:20],
